@@ -95,3 +95,7 @@ Check c14_spec_of_model : forall ops, dom14 ops = true ->
   spec_c14 ops (run world0 ops) = true \/ known_c14 ops (run world0 ops) = true.
 Check c14_spec_of_model_strict : forall ops, dom14 ops = true ->
   mixed_kinds_registered ops (run world0 ops) = false -> spec_c14 ops (run world0 ops) = true.
+Check c14_spec_of_model_custom : forall ops, PV.Proofs.C14SpecCustom.dom14c ops = true ->
+  spec_c14 ops (run world0 ops) = true \/ known_c14 ops (run world0 ops) = true.
+Check c14_spec_of_model_strict_custom : forall ops, PV.Proofs.C14SpecCustom.dom14c ops = true ->
+  mixed_kinds_registered ops (run world0 ops) = false -> spec_c14 ops (run world0 ops) = true.
